@@ -58,22 +58,37 @@ def derivative_contract(env, factory, const=None, exempt=(), history=True, equal
                 D = S.subs_array(D, _pin_mapping(env))
             else:
                 T = hB.true_jac(ins, outs, of, wrt)
-            env.eq("C01", "D-exact %s%s" % (nm, tag if env.sym else ""), D, T)
+            env.eq("C01,C02", "D-exact %s%s" % (nm, tag if env.sym else ""), D, T)
         # sparsity: undeclared pairs have zero derivative
         for of in hB.out_names:
             for wrt in hB.in_names:
                 if (of, wrt) in declared or wrt in skip_wrt or (const and wrt in const):
                     continue
                 T = hB.true_jac(ins, outs, of, wrt)
-                env.eq("C01", "D-sparsity d%s/d%s%s" % (of, wrt, tag if env.sym else ""), T, 0)
+                env.eq("C01,C02", "D-sparsity d%s/d%s%s" % (of, wrt, tag if env.sym else ""), T, 0)
         if all_approx:
             for n in hB.out_names:
                 env.nodep("C03", "H-out %s does not depend on the previous outputs%s" % (n, tag if env.sym else ""), outs[n], "O0<")
         if frame:
             env.holds("C03", "H-frame inputs unchanged by compute%s" % (tag if env.sym else ""), not frame_writes,
                       "compute wrote to its inputs: %s" % (frame_writes[:4],))
-            env.holds("C01", "D-cs-safe compute leaves inputs unchanged%s" % (tag if env.sym else ""), not frame_writes,
+            env.holds("C01,C02", "D-cs-safe compute leaves inputs unchanged%s" % (tag if env.sym else ""), not frame_writes,
                       "compute wrote to its inputs: %s" % (frame_writes[:4],))
+            if any(inf['method'] == 'cs' for inf in declared.values()):
+                # partials delegated to complex step: the value of no output may flow through abs() of an input-dependent
+                # quantity (|z| is not analytic: the complex perturbation is lost)
+                if env.sym:
+                    bad = []
+                    for (of, wrt), inf in declared.items():
+                        if inf['method'] != 'cs':
+                            continue
+                        wv = set(S.var_id(v) for v in np.asarray(ins[wrt], dtype=object).reshape(-1) if isinstance(v, RF) and len(v.p) == 1 and not v.is_const())
+                        if any(ev & wv for ev in S.ABS_EVENTS):
+                            bad.append(wrt)
+                    env.holds("C01,C02", "D-cs-safe outputs with complex-step partials do not flow through abs() of their inputs%s" % tag,
+                              not bad, "the value of abs() of a quantity depending on %s is used in arithmetic" % sorted(set(bad))[:4])
+                else:
+                    _native_cs_check(env, hB, ins, declared)
     # index arrays of the declarations: in range and integer
     for (of, wrt), inf in declared.items():
         if inf['rows'] is not None:
@@ -121,9 +136,9 @@ def derivative_contract(env, factory, const=None, exempt=(), history=True, equal
         for k in declared:
             if declared[k]['method']:
                 continue
-            env.eq("C03", "H-jac d%s/d%s after linearising at another point%s" % (k[0], k[1], tag),
+            env.eq("C03,C02", "H-jac d%s/d%s after linearising at another point%s" % (k[0], k[1], tag),
                    jacA_first[k], jacC.dense(k))
-            env.eq("C03", "H-jac d%s/d%s when linearised twice at the same point%s" % (k[0], k[1], tag),
+            env.eq("C03,C02", "H-jac d%s/d%s when linearised twice at the same point%s" % (k[0], k[1], tag),
                    jacA.dense(k), jacC.dense(k))
     return hB
 
@@ -233,3 +248,26 @@ def implicit_contract(env, factory, setup_model=None, pre=None, requires=None):
             env.eq("C02", "S-nl residual at the solve_nonlinear result is the solved system (R(x) == A x - b) [%s]" % n,
                    np.asarray(r[n]).reshape(-1), 0 * np.asarray(r[n]).reshape(-1))
     return h
+
+
+def _native_cs_check(env, h, ins, declared):
+    """native counterpart of the abs()-flow obligation: complex step of the real compute agrees with central differences"""
+    bad = []
+    for (of, wrt), inf in declared.items():
+        if inf['method'] != 'cs':
+            continue
+        fd = h._native_fd(ins, of, wrt)
+        x0 = np.array(np.broadcast_to(np.asarray(ins[wrt], dtype=float), h.shape[wrt]))
+        cs = np.zeros_like(fd)
+        for j in range(x0.size):
+            vals = {n: np.array(np.broadcast_to(np.asarray(ins[n], dtype=float), h.shape[n]), dtype=complex) for n in h.in_names}
+            vals[wrt].reshape(-1)[j] += 1e-30j
+            h.comp.under_complex_step = True
+            try:
+                o = h.csx.native_compute(vals, complex_=True)
+            finally:
+                h.comp.under_complex_step = False
+            cs[:, j] = np.asarray(o[of]).reshape(-1).imag / 1e-30
+        if np.max(np.abs(cs - fd)) > 1e-5 * (1 + np.max(np.abs(fd))):
+            bad.append((of, wrt))
+    env.holds("C01,C02", "D-cs-safe outputs with complex-step partials do not flow through abs() of their inputs", not bad, str(bad))
